@@ -9,6 +9,18 @@ everything else in `Gen/ImpTrans.lean` is produced from the Go syntax tree.
 namespace Apd.Gen.ImpG
 open Apd Apd.Imp
 
+/-- the struct `loop` of loop.go as a value (`name`, used in an error message only, is left out; `arg` is the copy
+`new(Decimal).Set(arg)`) -/
+structure Loop where
+  c : Ctx := {}
+  i : Nat := 0
+  precision : Int := 0
+  maxIterations : Nat := 0
+  arg : Dec := {}
+  prevZ : Dec := {}
+  delta : Dec := {}
+deriving Inhabited
+
 /-- a big integer held as sign flag + magnitude, as a signed integer (argument of a read-only `*BigInt` parameter) -/
 def bigInt (neg : Bool) (mag : Nat) : Int := if neg then -(mag : Int) else (mag : Int)
 
